@@ -399,6 +399,14 @@ func (h *http2FrameTracer) traceFrameLocked(data []byte) (int, bool) {
 }
 
 func (h *http2FrameTracer) emitFrame() bool {
+	switch h.header.Type { //nolint:exhaustive
+	case http2.FrameHeaders, http2.FramePushPromise, http2.FrameContinuation:
+		if !h.header.Flags.Has(http2.FlagHeadersEndHeaders) {
+			// The header block continues in CONTINUATION frame(s). Keep what
+			// is buffered so far, so that the whole sequence is decoded at once.
+			return true
+		}
+	}
 	defer func() {
 		h.frame.Reset()
 	}()
